@@ -13,10 +13,10 @@ Theorem spec_fails_iff_no_common : forall env c s,
 Proof. exact spec_fails_iff_no_common_pf. Qed.
 
 (* every component of the spec's choice lies in both configurations, the version is the highest
-   common one, and a suite that needs a group / a signature scheme gets one *)
+   common one at which some suite is feasible, and a suite that needs a group / a signature scheme gets one *)
 Theorem spec_choice_in_both : forall env c s ch, spec_negotiate env c s = Some ch ->
   (In (co_version ch) (cf_versions c) /\ In (co_version ch) (cf_versions s) /\
-   forall w, In w (cf_versions c) -> In w (cf_versions s) -> w <= co_version ch) /\
+   forall w, In w (cf_versions c) -> version_ok env c s w = true -> w <= co_version ch) /\
   (In (co_suite ch) (cf_suites c) /\ In (co_suite ch) (cf_suites s) /\
    usable env (co_version ch) (co_suite ch) = true) /\
   (forall g, co_group ch = Some g -> In g (cf_groups c) /\ In g (cf_groups s)) /\
